@@ -754,6 +754,12 @@ func c11GenOne(r *Rng, sameSecondFamily bool) string {
 	if !commitRegime {
 		t = int64(1200000000 + r.Intn(100000))
 	}
+	// a timeline that begins right at osm.CommitInfoStart: every version has a commit time, but element time
+	// stamps (a little before the commit) may still lie before the start of commit information
+	boundary := commitRegime && r.Chance(8)
+	if boundary {
+		t = c11Start + int64(r.Intn(3))
+	}
 	nChildren := 2 + r.Intn(4)
 	fids := make([]int64, nChildren)
 	for i := range fids {
@@ -774,6 +780,9 @@ func c11GenOne(r *Rng, sameSecondFamily bool) string {
 		ch := c11Child{ver: ver, cs: cs, vis: vis, ts: t, commit: t, hasCommit: commitRegime, lat: int64(1 + r.Intn(300)), lon: int64(1 + r.Intn(300))}
 		if commitRegime && r.Chance(30) {
 			ch.ts = t - int64(r.Intn(3)) // element timestamp a little before the commit
+		}
+		if boundary {
+			ch.ts = t - int64(r.Intn(40))
 		}
 		if kind == "rel" && fid%2 == 1 {
 			ch.lat, ch.lon = 0, 0
